@@ -198,7 +198,7 @@ func cencode(c *CCmd) []byte {
 	case "autopilot":
 		t = structs.AutopilotRequestType
 		msg = &structs.AutopilotSetConfigRequest{Datacenter: "dc1", CAS: c.CAS,
-			Config: structs.AutopilotConfig{CleanupDeadServers: true, MaxTrailingLogs: c.Payload, RaftIndex: structs.RaftIndex{ModifyIndex: c.Index}}}
+			Config: structs.AutopilotConfig{CleanupDeadServers: true, MaxTrailingLogs: c.Payload, ModifyIndex: c.Index}}
 	case "token-set":
 		t = structs.ACLTokenSetRequestType
 		r := &structs.ACLTokenBatchSetRequest{CAS: c.CAS}
@@ -319,7 +319,9 @@ func (im *impl) cdump() CDump {
 		case *state.IndexEntry:
 			d.Index = append(d.Index, [2]string{v.Key, fmt.Sprint(v.Value)})
 		default:
-			d.Other = append(d.Other, fmt.Sprintf("%s:%T", table, item))
+			if table != "usage" { // derived counters; covered by the fingerprint
+				d.Other = append(d.Other, fmt.Sprintf("%s:%T", table, item))
+			}
 		}
 		return true
 	})
